@@ -496,6 +496,11 @@ impl<'a> Runtime<'a> {
             }
             Stmt::Loop { cond, body, .. } => {
                 loop {
+                    // Taken before the condition is evaluated, so that what the condition
+                    // allocates (a copied receiver, say) is released with the iteration too
+                    let frame_offset =
+                        if self.has_frame_arena() { Some(self.frame.offset()) } else { None };
+
                     let val = self.eval_expr(cond)?;
                     let should_continue = match val {
                         Value::Bool(b) => b,
@@ -510,9 +515,6 @@ impl<'a> Runtime<'a> {
                     if !should_continue {
                         break;
                     }
-
-                    let frame_offset =
-                        if self.has_frame_arena() { Some(self.frame.offset()) } else { None };
 
                     match self.exec_block_with_flow(body)? {
                         ExecFlow::Break => break,
